@@ -66,7 +66,7 @@ def gen_plan(seed, index, tier):
                     eps=rng.choice([0.01, 0.05, 0.1]), max_iter=rng.choice([2, 3, 5, 8, 12]), lp=rng.random() < 0.5,
                     eta0=rng.choice([0.5, 2.0, 5.0]))
         vals = sorted({r[0] for r in rows})
-        plan["xq"] = [rng.choice(vals + [99]) for _ in range(rng.randint(2, 12))]
+        plan["xq"] = [rng.choice(vals + [99]) for _ in range(rng.choice([1, 1, 2, 3, 5, 8, 12]))]
     elif fam == "eg_reg":
         rows = gen_dataset(rng, nmin=10)
         rows = [(r[0], r[1], rng.choice([0.0, 0.2, 0.4, 0.6, 0.8, 1.0, round(rng.random(), 2)])) for r in rows]
@@ -74,7 +74,7 @@ def gen_plan(seed, index, tier):
                     eps=rng.choice([0.01, 0.05, 0.1]), max_iter=rng.choice([4, 6, 8, 12, 16]), lp=rng.random() < 0.15,
                     eta0=rng.choice([0.5, 2.0, 5.0]))
         vals = sorted({r[0] for r in rows})
-        plan["xq"] = [rng.choice(vals) for _ in range(rng.randint(2, 8))]
+        plan["xq"] = [rng.choice(vals) for _ in range(rng.choice([1, 1, 2, 3, 5, 8]))]
     else:
         m = rng.randint(2, 4)
         n = rng.randint(4 * m, 40)
